@@ -190,6 +190,32 @@ pub fn run(ctx: &Ctx) -> i32 {
     rep.sweep("DateTime: borrow grid k*unit + {-1,0,+1} ns, all pairs", ng * ng, "around 0001-01-01, 1970-01-01 and -0001-01-01", |i, acc| {
         case_dt_pair(grid[(i / ng) as usize], grid[(i % ng) as usize], 0, if i % 3 == 0 { 3600 } else { 0 }, acc);
     });
+    // spans of 2^k units (+- a little): every bit of every unit's difference is set once, so a result
+    // squeezed through a narrower integer on the way shows at the width where it happens
+    let mut pow: Vec<((i64, u64), (i64, u64))> = vec![];
+    let total = ins::MAX_INSTANT - ins::MIN_INSTANT;
+    for u in 0..7 {
+        for k in 0..=80u32 {
+            let span = match UNITS[u].1.checked_mul(1i128 << k) {
+                Some(s) if s < total - 4 * ins::DAY => s,
+                _ => break,
+            };
+            for base in [ins::MIN_INSTANT + ins::DAY, -(span / 2), ins::MAX_INSTANT - ins::DAY - span - 2_000] {
+                for e in [-1_001i128, -1, 0, 1, 999, 1_001] {
+                    let (lo, hi) = (base, base + span + e);
+                    if ins::representable(lo) && ins::representable(hi) && lo > ins::MIN_INSTANT + ins::DAY / 2 && hi < ins::MAX_INSTANT - ins::DAY / 2 {
+                        pow.push((ins::split(hi), ins::split(lo)));
+                        pow.push((ins::split(lo), ins::split(hi)));
+                    }
+                }
+            }
+        }
+    }
+    let npow = pow.len() as u64;
+    rep.sweep("DateTime: pairs 2^k units apart (+-1 ns, +-1 us) for every unit and every k, three placements, both orders", npow, "k up to the width of the representable range in that unit", |i, acc| {
+        let (a, b) = pow[i as usize];
+        case_dt_pair(a, b, 0, if i % 5 == 0 { 3600 } else { 0 }, acc);
+    });
     // inversion of add_<unit>
     let counts = ab::counts_b();
     let nc = counts.len() as u64;
